@@ -452,10 +452,10 @@ func (in *instance) step(o Op, sets []VarSet, dry *stepStats) (res string, st st
 		st.contentLen = len(sc.Content)
 		return describeTokens(toks), st
 	case in.ep != nil && (o.Op == "tokens" || o.Op == "rawtokens"):
-		err := in.ep.ParseTokens(originalTokens(o, exprOriginalTokens))
+		err := in.ep.ParseTokens(originalTokens(o, exprOriginalTokens, looseExprTokenizer))
 		return fmt.Sprintf("expr=%q err=%s|%s vars=%q result=%s", in.ep.Expression(), ErrCode(err), ErrMessage(err), in.ep.VariableNames(), describeExprTokens(in.ep.ResultTokens())), st
 	case in.mp != nil && (o.Op == "tokens" || o.Op == "rawtokens"):
-		err := in.mp.ParseTokens(originalTokens(o, mustOriginalTokens))
+		err := in.mp.ParseTokens(originalTokens(o, mustOriginalTokens, looseMustTokenizer))
 		var sb strings.Builder
 		snapshotTmplTokens(&sb, in.mp.ResultTokens())
 		return fmt.Sprintf("tmpl=%q err=%s|%s vars=%q result=%s", in.mp.Template(), ErrCode(err), ErrMessage(err), in.mp.VariableNames(), sb.String()), st
@@ -531,7 +531,7 @@ func (in *instance) step(o Op, sets []VarSet, dry *stepStats) (res string, st st
 			}
 		case o.Op == "tokens" || o.Op == "rawtokens":
 			in.parsed, in.lastText = false, ""
-			in.calc.SetOriginalTokens(originalTokens(o, exprOriginalTokens)) // reports no error; a failed parse leaves an empty program
+			in.calc.SetOriginalTokens(originalTokens(o, exprOriginalTokens, looseExprTokenizer)) // reports no error; a failed parse leaves an empty program
 		default:
 			in.parsed, in.lastText = false, ""
 			err = in.calc.SetExpression(text)
@@ -581,7 +581,7 @@ func (in *instance) step(o Op, sets []VarSet, dry *stepStats) (res string, st st
 	case in.tmpl != nil:
 		var err error
 		if o.Op == "tokens" || o.Op == "rawtokens" {
-			err = in.tmpl.SetOriginalTokens(originalTokens(o, mustOriginalTokens))
+			err = in.tmpl.SetOriginalTokens(originalTokens(o, mustOriginalTokens, looseMustTokenizer))
 		} else {
 			err = in.tmpl.SetTemplate(o.S)
 		}
@@ -711,6 +711,7 @@ func c05GenTask(r *Rand, kind string, faults bool, first, second int) TaskPlan {
 			o.Op = "tokens"
 			if r.Bool(0.35) {
 				o.Op = "rawtokens"
+				o.I = r.Intn(4) // single token / first two glued / the list of a tokenizer in its default configuration
 			}
 		} else if r.Bool(0.08) && i > 0 {
 			o.Op = "owntext" // set the instance's own current text again
@@ -1017,6 +1018,9 @@ func exprOriginalTokens(text string) []*tokenizers.Token {
 	return t.TokenizeBuffer(text)
 }
 
+func looseExprTokenizer() tokenizers.ITokenizer { return ctok.NewExpressionTokenizer() }
+func looseMustTokenizer() tokenizers.ITokenizer { return mtok.NewMustacheTokenizer() }
+
 func mustOriginalTokens(text string) []*tokenizers.Token {
 	text = strings.Trim(text, " \t\r\n")
 	if text == "" {
@@ -1079,10 +1083,15 @@ func faultyCallIndex(r *Rand, text, name string) int {
 // output) or of a "rawtokens" step: a list a caller assembled by hand that does
 // not come back when its composed text is tokenized again - the whole text as
 // one token, or the tokenizer's output with the values of adjacent tokens glued.
-func originalTokens(o Op, tokenize func(string) []*tokenizers.Token) []*tokenizers.Token {
+func originalTokens(o Op, tokenize func(string) []*tokenizers.Token, loose func() tokenizers.ITokenizer) []*tokenizers.Token {
 	toks := tokenize(o.S)
 	if o.Op != "rawtokens" {
 		return toks
+	}
+	if o.I%4 == 3 {
+		// what a tokenizer in its default configuration gives for the untrimmed text: blanks, comments
+		// and the end-of-input token are all in the list (for a blank text: nothing else)
+		return loose().TokenizeBuffer(o.S)
 	}
 	if o.I%2 == 0 || len(toks) < 2 {
 		typ := tokenizers.Special
